@@ -113,10 +113,31 @@ def check(run):
     pts = np.array([[0.3, 0.2, 0.1]])
     for dt, o in [("direct", (3, 0, 0)), ("bogus", (1, 0, 0)), ("Direct", (0, 0, 0)), ("direct", (0, 0, 3)), ("general", (3, 0, 0))]:
         one_case(run, [s], pts, o, dt)
+    representation_cases(run)
+
+
+
+def representation_cases(run):
+    from gbasis.evals.eval import evaluate_basis
+    from gbasis.evals.eval_deriv import evaluate_deriv_basis
+    rng = run.rng
+    specs = random_basis(rng, 2, 3, lmax=3, exp_hi=5.0)
+    basis = make_basis(specs)
+    pts = np.array([[0.0, 1.0, -1.0], [2.0, 0.0, 1.0], [1.0, 1.0, 1.0], [-1.0, 2.0, 0.0]])
+    rep = {"basis": core.describe_basis(specs), "points": pts.tolist()}
+    repr_case(run, "evaluate_basis", "points", lambda p: evaluate_basis(basis, p), pts, rep)
+    for o, dt in (((1, 0, 2), "general"), ((0, 2, 1), "direct"), ((3, 1, 0), "general")):
+        repr_case(run, f"evaluate_deriv_basis{o}[{dt}]", "points", lambda p, o=o, dt=dt: evaluate_deriv_basis(basis, p, np.array(o), deriv_type=dt), pts, rep)
+    n = sum(s_.size for s_ in specs)
+    T = np.array([[float((3 * r + 2 * c) % 5 - 2) for c in range(n)] for r in range(3)])
+    repr_case(run, "evaluate_basis", "transform", lambda t: evaluate_basis(basis, pts, transform=t), T, rep)
 
 
 def replay(run, rep):
     n0 = len(run.violations)
+    if rep.get("case") == "representation":
+        representation_cases(run)
+        return len(run.violations) == n0
     t = rep.get("transform")
     one_case(run, specs_from(rep), np.array(rep["points"]), tuple(rep["orders"]), rep["deriv_type"],
              None if t is None else np.array(t))
